@@ -8,7 +8,7 @@ CHECKS = {
    text='Kani decides, for each parameter set and each public entry point (try_sign_with_rng, try_hash_sign_with_rng, verify, hash_verify, _internal_sign, _internal_verify), that a context of n bytes is rejected without reaching Sign_internal / Verify_internal iff n > 255, and is otherwise passed through unchanged, for every n in 0..=1024, every RNG outcome and every pre-hash function. Complete for the wrapper logic inside the bound; the length byte inside mu is covered by the C06 transcript obligations.',
    note='Kani/CBMC; sign_internal / verify_internal replaced by recorders; sha2/sha3 oracle models; n <= 1024.', ref='DESIGN.md §5 C07'),
  'C10': dict(cat='model_checking', tech='bounded model checking of the real bit_unpack (Kani/CBMC, SAT) over every byte string of an eta section; native replay through PrivateKey::try_from_bytes',
-   text='For both eta values the solver decides over all 2^768 / 2^1024 byte strings of one s1/s2 section that the real bit_unpack(v, eta, eta) returns Ok exactly when every field is <= 2*eta, and that the decoded coefficient at a symbolic index is eta - field. Counterexamples are replayed through the public try_from_bytes of ml_dsa_44 / ml_dsa_65.',
+   text='For both eta values the solver decides over all 2^768 / 2^1024 byte strings of one s1/s2 section that the real bit_unpack(v, eta, eta) returns Ok exactly when every field is <= 2*eta, and that the decoded coefficient at a symbolic index is eta - field. Counterexamples are replayed through the public try_from_bytes of ml_dsa_44 / ml_dsa_65. An E2 layout obligation per parameter set shows that sk_decode hands every s1 / s2 section (loop index symbolic) to bit_unpack with (eta, eta); a native workload tries every slot x out-of-range value.',
    note='Kani/CBMC; zeroising Drop of R stubbed; sk_decode applies bit_unpack section by section (structural).', ref='DESIGN.md §5 C10'),
  'C12': dict(cat='model_checking', tech='bounded model checking of the real entry points (Kani/CBMC, SAT) with a fault-injecting model RNG',
    text='Kani decides for try_keygen_with_rng, try_sign_with_rng and try_hash_sign_with_rng of every parameter set: exactly one 32-byte request through try_fill_bytes; on failure (before writing or after any prefix) the result is Err and no key / signature is computed; the infallible RNG methods are never called; on success the 32 drawn bytes are exactly the rnd / seed handed to Sign_internal / KeyGen_internal.',
@@ -21,7 +21,7 @@ CHECKS = {
    note='trusted: MIR dump, translator, z3; composition step is pen-and-paper; basis premise is a concrete native run.', ref='DESIGN.md §5 C18'),
 }
 CHECKS['C16'] = dict(cat='model_checking', tech='bounded model checking of the real zeroising Drop / Zeroize code (Kani/CBMC, SAT) for every content and read-back position, plus a dataflow skeleton of the derived Drop bodies extracted from the MIR',
-   text='Kani executes the real volatile-write erasure of R, T, [u8;32], [u8;64] and [T;2] for every content and proves every element zero afterwards; the E2 skeleton of the derived Drop/Zeroize bodies of PrivateKey, PublicKey, R, T shows that every field of each struct is handed to a zeroising call on the single path of Drop (so a #[zeroize(skip)] or a removed derive is reported). The monolithic PrivateKey<1,1> / PublicKey<1,1> drop harnesses run in the thorough tier.',
+   text='Kani executes the real volatile-write erasure of R, T, [u8;32], [u8;64] and [T;2] for every content and proves every element zero afterwards; the E2 skeleton of the derived Drop/Zeroize bodies of PrivateKey, PublicKey, R, T shows that every field of each struct is handed to a zeroising call on the single path of Drop (so a #[zeroize(skip)] or a removed derive is reported). The whole PublicKey<1,1> object is also decided in the quick tier; the PrivateKey<1,1> object (18 min) in the thorough tier.',
    note='only the inline-asm optimisation barrier is stubbed; zeroize crate AssertZeroize forwarding trusted; real (K,L) by genericity.', ref='DESIGN.md §5 C16')
 
 _SK = 'E2 dataflow skeleton of the real MIR (calls uninterpreted) unified with the FIPS 204 call sequence + SMT decision/closure lemmas'
@@ -44,7 +44,7 @@ CHECKS['C06'] = dict(cat='model_checking', tech='SMT (z3 sequence theory) inject
    text='The shape of M\' absorbed by both signer and verifier is extracted from the MIR (dom, one length byte, ctx, then M or OID||PH(M)); z3 decides for byte strings of unbounded length that this formatting is injective for |ctx| <= 255 and that pure / pre-hash modes and the three pre-hash functions are pairwise disjoint; Kani decides OID and digest-length selection on the real hash_message.',
    note='binding of the signature to M\' rests on SHAKE256 (oracle).', ref='DESIGN.md §5 C06')
 CHECKS['C08'] = dict(cat='model_checking', tech='bounded model checking of the real codecs (Kani/CBMC, SAT) against spec-literal Algorithms 16-21; per-loop unwind bounds from cbmc --show-loops',
-   text='Hint decoder (reduced K=2, omega=8, same generic code): for every value of both count bytes and a 4-byte index window the real HintBitUnpack agrees with Algorithm 21 (accept/reject and decoded hint). Coefficient codecs: for every byte string of a polynomial BitUnpack equals the FIPS bit formula and BitPack reproduces the bytes (t1; thorough: t0, z); adjacent in-range coefficient pairs round-trip at every position (eta, w1 ranges). A native differential at the real (K, omega) confirms counterexamples.',
+   text='Hint decoder (reduced K=2, omega=8, same generic code): for every value of both count bytes and a 4-byte index window the real HintBitUnpack agrees with Algorithm 21 (accept/reject and decoded hint). Coefficient codecs: for every byte string of a polynomial BitUnpack equals the FIPS bit formula and BitPack reproduces the bytes (t1; thorough: t0, z); adjacent in-range coefficient pairs round-trip at every position (eta, w1 ranges). E2 layout obligations (per parameter set, loop index symbolic): sig_decode / sig_encode / sk_decode / sk_encode / pk_decode / w1_encode hand exactly the FIPS byte ranges to the (un)packers with the FIPS (a, b). A native differential at the real (K, omega) confirms counterexamples.',
    note='quick tier runs a seed-selected subset (each harness costs 7-17 min of CBMC); thorough runs all incl. exhaustive K=2, omega=4.', ref='DESIGN.md §5 C08')
 CHECKS['C09'] = dict(cat='model_checking', tech=_SK + ' for expand_* / into_bytes + closure lemmas; composition with C18 / C08',
    text='The deserialise / serialise paths are shown to be decode; NTT; to_mont and mont_reduce; invNTT; re-centre / >> d; encode with the right fields, and each per-coefficient step is inverted exactly (SMT, every coefficient value, incl. t1 = 1023).',
@@ -53,7 +53,7 @@ CHECKS['C11'] = dict(cat='translation_validation', tech=_SK + ' for private_to_p
    text='private_to_public_key is validated against the t1 pipeline of KeyGen (same call sequence modulo leaving Montgomery form), rho and tr are copied from the private key, and every closure equals its formula for every coefficient value in the range its producer guarantees.',
    note='algebra uninterpreted (C18); counterexamples confirmed natively by a directed seed search.', ref='DESIGN.md §5 C11')
 CHECKS['C13'] = dict(cat='model_checking', tech='panic-site inventory of the checked MIR (E2 skeleton, SMT per site under callee contracts) + native hostile-input workload as replay vehicle',
-   text='Every panic / assert site in the bodies of the big functions and public wrappers is enumerated from the checked MIR and shown unreachable under the concrete parameters and callee contracts; sites inside kernels, closures, codecs and transforms are obligations of C15 / C18 / C08 / C10.',
+   text='Every panic / assert site in the bodies of the big functions and public wrappers is enumerated from the checked MIR and shown unreachable under the concrete parameters and callee contracts; sites inside kernels, closures, codecs and transforms are obligations of C15 / C18 / C08 / C10; the hint-section decoder additionally runs here under Kani with all default checks (index bounds, overflow, debug assertions) on symbolic count and index bytes.',
    note='samplers are covered by the native workload only.', ref='DESIGN.md §5 C13')
 NA = [
  ('C14', 'whole-pipeline branch/address trace equality needs the compiled artefact executed through real SHAKE for all RNG outputs; no binary/LLVM-level symbolic executor is available and MIR-level control flow is stricter than the binary (Ord::max, abs_diff) - outside solver-based checking of the source here'),
